@@ -89,6 +89,12 @@ def run (payload : String) : String :=
     | some (sync, k, s0) =>
       let (_, outs) := ops.foldl (fun (acc : S × List String) op =>
         -- `pf`: `Bundles::prefetch_sync` / `prefetch_async` driven to completion (the source's hook is ready at once)
+        -- `sx`: a `format_value_sync` call on an ASYNCHRONOUS set is refused (`SyncRequestInAsyncMode`) before anything
+        -- is touched: identity on the state (only generated for asynchronous sets)
+        if op == "sx" then
+          (if sync then (acc.1, "unsupported" :: acc.2)
+           else (acc.1, ("sx:refused" ++ counts acc.1 ++ newWakes acc.1 acc.1) :: acc.2))
+        else
         if op == "pf" then
           let s' := prefetch acc.1
           (s', ("pf" ++ counts s' ++ newWakes acc.1 s') :: acc.2)
